@@ -399,7 +399,14 @@ def _search_view(searcher, word):
     sc = [(h["u"], repr(h.score)) for h in searcher.search(query.Term("t", word), limit=None)]
     # document numbers are part of the view: they are what delete_document() and stored_fields() take
     nums = [(dn, st.get("u")) for dn, st in searcher.reader().iter_docs()]
-    return srt, sc, nums
+    # the schema is part of a generation: which fields exist, and which documents have one
+    names = sorted(searcher.schema.names())
+    per_field = []
+    for n in names:
+        if "*" in n or not searcher.schema[n].indexed:
+            continue
+        per_field.append((n, sorted(h["u"] for h in searcher.search(query.Every(n), limit=None))))
+    return srt, sc, nums, names, per_field
 
 
 def _search_view_check(self, got):
@@ -427,7 +434,7 @@ def _search_view_check(self, got):
     mine = run(srch, "the held searcher")
     if mine is None:
         return
-    srt, sc, nums = mine
+    srt, sc, nums, names, per_field = mine
     s.count("search_view_checks")
     uids = sorted(u for _, u in srt)
     live = sorted(got["docs"])
@@ -459,6 +466,12 @@ def _search_view_check(self, got):
     if theirs is None:
         return
     s.count("search_view_vs_fresh")
+    if theirs[3] != names:
+        raise Violation("refresh_equals_fresh_open", "%s: its schema has the fields %s, a fresh searcher of the same generation %s" % (where, names, theirs[3]),
+                        sig="refresh_equals_fresh_open:schema")
+    if theirs[4] != per_field:
+        raise Violation("refresh_equals_fresh_open", "%s: Every(<field>) per field gives %s, a fresh searcher of the same generation %s" % (where, per_field[:4], theirs[4][:4]),
+                        sig="refresh_equals_fresh_open:every_field")
     if theirs[0] != srt:
         raise Violation("refresh_equals_fresh_open", "%s: Every() sorted by k gives %s, a fresh searcher of the same generation gives %s" % (where, srt[:10], theirs[0][:10]),
                         sig="refresh_equals_fresh_open:sorted_search")
